@@ -215,3 +215,9 @@ V('C06', 'revert-elementwise-multi-arg', M, MM + '__infer_func_call',
         # arguments, so a multi argument repeats the results.
         return DUPLICATE
 ''', '', 'C06.R7', 'elementwise-multi-argument')
+V('C06', 'except-bounded-by-all-operands', K, KM + '__infer_oper_call',
+  '        _lower, upper = _card_to_bounds(cards[0])\n', '        _lower, upper = _card_to_bounds(min_cardinality(cards))\n', 'C06.R5', 'std::EXCEPT:upper-of-first-operand')
+V('C06', 'elementwise-guard-singleton-only', M, MM + '__infer_func_call',
+  '        arg.param_typemod is not qltypes.TypeModifier.SetOfType\n', '        arg.param_typemod is qltypes.TypeModifier.SingletonType\n', 'C06.R7', 'elementwise-guard-covers')
+V('C06', 'neg-elementwise-guard-membership', M, MM + '__infer_func_call',
+  '        arg.param_typemod is not qltypes.TypeModifier.SetOfType\n', '        arg.param_typemod in (qltypes.TypeModifier.SingletonType, qltypes.TypeModifier.OptionalType)\n', None)
